@@ -296,6 +296,12 @@ func cmdCheck(args []string) int {
 			vacOK++
 		case anyUnknown:
 			vacUnknown++
+		case strings.HasSuffix(name, ".entry"):
+			// a loop that the precondition makes unreachable is dead code for this contract, not a contradiction
+			vacUnknown++
+		case strings.HasSuffix(name, ".body") && !hasStatus(vacuity[strings.TrimSuffix(name, ".body")+".entry"], "sat"):
+			// the loop itself is not (known to be) reachable under the precondition: its body need not be either
+			vacUnknown++
 		default:
 			toolErrors = append(toolErrors, "VACUOUS: "+name+" is unsatisfiable (contradictory precondition / invariant / assumption)")
 		}
@@ -553,4 +559,13 @@ func cmdReplay(args []string) int {
 	// re-run the property check; the obligation must fail again
 	code := cmdCheck([]string{prop})
 	return code
+}
+
+func hasStatus(sts []string, want string) bool {
+	for _, s := range sts {
+		if s == want {
+			return true
+		}
+	}
+	return false
 }
